@@ -75,7 +75,73 @@ func runC20(c *Ctx) {
 	checkHeapAdapter(c, p)
 }
 
+// checkNoSelfMerge: R20.7. A loop that copies the elements of one set into another (`for e := range x.set { y.set[e] = ... }`)
+// has two different sets on every path: when y can be x (a variable that was assigned either of two sets), the merge is a
+// no-op on that path and the elements of the set that should have been merged are lost.
+func checkNoSelfMerge(c *Ctx, p *core.Prog, fn *ssa.Function, typ string) {
+	// the objects a map value can belong to: the bases of `base.set` loads, through phis
+	var bases func(v ssa.Value, seen map[ssa.Value]bool, out map[ssa.Value]bool)
+	bases = func(v ssa.Value, seen map[ssa.Value]bool, out map[ssa.Value]bool) {
+		if seen[v] {
+			return
+		}
+		seen[v] = true
+		switch x := v.(type) {
+		case *ssa.Phi:
+			for _, e := range x.Edges {
+				bases(e, seen, out)
+			}
+		case *ssa.UnOp:
+			if fa, ok := x.X.(*ssa.FieldAddr); ok && x.Op == token.MUL {
+				bases(fa.X, seen, out)
+				return
+			}
+			out[v] = true
+		default:
+			out[v] = true
+		}
+	}
+	n := 0
+	for _, b := range fn.Blocks {
+		for _, in := range b.Instrs {
+			mu, ok := in.(*ssa.MapUpdate)
+			if !ok {
+				continue
+			}
+			ex, ok := mu.Key.(*ssa.Extract)
+			if !ok || ex.Index != 1 {
+				continue
+			}
+			nx, ok := ex.Tuple.(*ssa.Next)
+			if !ok {
+				continue
+			}
+			rg, ok := nx.Iter.(*ssa.Range)
+			if !ok {
+				continue
+			}
+			if _, isMap := rg.X.Type().Underlying().(*types.Map); !isMap {
+				continue
+			}
+			n++
+			src, dst := map[ssa.Value]bool{}, map[ssa.Value]bool{}
+			bases(rg.X, map[ssa.Value]bool{}, src)
+			bases(mu.Map, map[ssa.Value]bool{}, dst)
+			same := false
+			for v := range src {
+				if dst[v] {
+					same = true
+				}
+			}
+			c.R.Check(!same, "R20.7", typ+"."+fn.Name()+": the set whose elements are copied and the set they are copied into are different on every path", p.Pos(mu.Pos()),
+				"source and destination of the merge loop never are the same object", "on some path the loop copies a set into itself: the elements of the set that was meant to be merged are lost (the result depends on which of the two sets is larger)")
+		}
+	}
+	c.R.Count("R20.7:merge loops", n)
+}
+
 func checkSetMethod(c *Ctx, p *core.Prog, fn *ssa.Function, typ string) {
+	checkNoSelfMerge(c, p, fn, typ)
 	scope := []string{core.RootMod}
 	e := eng.NewExplorer(p, scope...)
 	ps := make([]eng.Prov, len(fn.Params))
